@@ -3,6 +3,7 @@
  * must produce the bytes a fresh context produces.  Sources sit right after a PROT_NONE page. */
 #include "common.h"
 #include <sys/mman.h>
+ZSTD_compressionParameters ZSTD_getCParamsFromCDict(const ZSTD_CDict* cdict);      /* library-internal accessor (not static) */
 
 #define BIG (1000u << 10)
 #define MTBIG (3u << 20)
@@ -94,28 +95,47 @@ static int history_op(ZSTD_CCtx* c, int op, int isStatic) {
 /* optimal-parser subjects: many text-like inputs x the three opt strategies, after histories that leave different
  * bytes in the workspace, and on caller-provided memory pre-filled with different patterns */
 static void body_opt(void) {
-    int seed = vx_choose((int)vx_opt_int("--ninputs", 40)), lv = vx_choose(3), strat = lv == 0 ? 16 : lv == 1 ? 18 : 19, prior = vx_choose(5), size = vx_choose(2);
+    int seed = vx_choose((int)vx_opt_int("--ninputs", 40)), lv = vx_choose(3), strat = lv == 0 ? 16 : lv == 1 ? 18 : 19, prior = vx_choose(6), size = vx_choose(2), useCDict = vx_choose(2);
     size_t n = size ? 20000 : 6000; u8* src = g_srcPage; uint32_t s = 1000 + (uint32_t)seed;
     {   /* text-like: short vocabulary words, a separator or digit, and about one noise byte in eight positions: many short isolated matches */
         static const char* W[] = {"lorem", "ipsum", "dolor", "sit", "amet", "sed", "do", "of", "and", "the", "block", "frame", "x", "yy", "zzz", "offset", "literal"};
         size_t o = 0; while (o < n) { s = s * 1103515245u + 12345u; uint32_t r = s >> 8;
             if (r & 7) { const char* w = W[(r >> 3) % 17]; for (; *w && o < n; w++) src[o++] = (u8)*w; if (o < n) src[o++] = ((r >> 12) & 1) ? ' ' : (u8)('0' + ((r >> 13) % 10)); }
             else src[o++] = (u8)(r >> 14); } }
-    vx_label("opt input%d level%d prior%d n=%zu", seed, strat, prior, n);
-    ZSTD_CCtx* f = ZSTD_createCCtx(); ZSTD_CCtx_setParameter(f, ZSTD_c_compressionLevel, strat); ZSTD_CCtx_setParameter(f, ZSTD_c_windowLog, 15);
+    vx_label("opt input%d level%d prior%d n=%zu cdict%d", seed, strat, prior, n, useCDict);
+    if (useCDict && (seed % 4 || prior == 3 || prior == 4)) { vx_obs_u64(61); return; }     /* the digested-dictionary variant on a quarter of the inputs, heap contexts */
+    /* a digested dictionary made of the words of the input (the context copies or attaches its tables, by source size and strategy) */
+    static u8 dict[2048]; { size_t o = 0; uint32_t t = 5; static const char* W2[] = {"lorem ", "ipsum1 ", "dolor ", "block7 ", "frame ", "offset ", "literal0 ", "and the "}; while (o + 12 < sizeof dict) { t = t * 1103515245u + 12345u; const char* w = W2[(t >> 16) & 7]; while (*w) dict[o++] = (u8)*w++; } while (o < sizeof dict) dict[o++] = ' '; }
+    if (useCDict && (seed & 4)) {   /* second texture for the dictionary variant: dictionary = noise whose second half repeats the 3-byte groups of the first; input = noise sprinkled with such groups (only 3-byte matches exist) */
+        uint32_t t = 3; for (size_t i = 0; i < 1024; i++) { t = t * 1103515245u + 12345u; dict[i] = (u8)(t >> 16); }
+        for (size_t i = 0; i < 256; i++) { size_t from = ((i * 37 + 11) % 256) * 4; memcpy(dict + 1024 + 4 * i, dict + from, 3); dict[1024 + 4 * i + 3] = (u8)(dict[from + 3] ^ 0x55); }
+        for (size_t i = 0; i < n; i++) { t = t * 1103515245u + 12345u; src[i] = (u8)(t >> 16); }
+        for (size_t i = 16; i + 8 < n; i += 9) { t = t * 1103515245u + 12345u; memcpy(src + i, dict + ((t >> 16) % 256) * 4, 3); } }
+    ZSTD_CDict* cd = useCDict ? ZSTD_createCDict(dict, sizeof dict, strat) : NULL;
+    ZSTD_CCtx* f = ZSTD_createCCtx(); ZSTD_CCtx_setParameter(f, ZSTD_c_compressionLevel, strat); if (!useCDict) ZSTD_CCtx_setParameter(f, ZSTD_c_windowLog, 15); else ZSTD_CCtx_refCDict(f, cd);
     size_t rn = ZSTD_compress2(f, g_ref, ZSTD_compressBound(n), src, n); ZSTD_freeCCtx(f);
-    if (ZSTD_isError(rn)) { vx_fail("fresh-context compression fails"); return; }
+    if (ZSTD_isError(rn)) { vx_fail("fresh-context compression fails"); ZSTD_freeCDict(cd); return; }
+    {   ZSTD_DCtx* d = ZSTD_createDCtx(); size_t o = ZSTD_decompress_usingDict(d, g_pool, 1u << 20, g_ref, rn, useCDict ? dict : NULL, useCDict ? sizeof dict : 0); ZSTD_freeDCtx(d);
+        if (ZSTD_isError(o) || o != n || memcmp(g_pool, src, n)) { vx_fail("fresh-context output%s does not round trip (%zu bytes for %zu)", useCDict ? " (digested dictionary)" : "", rn, n); ZSTD_freeCDict(cd); return; } }
     ZSTD_CCtx* c;
-    if (prior >= 3) { memset(g_static, prior == 3 ? 0x3F : 0xFF, g_staticSize); c = ZSTD_initStaticCCtx(g_static, g_staticSize); }
+    if (prior == 3 || prior == 4) { memset(g_static, prior == 3 ? 0x3F : 0xFF, g_staticSize); c = ZSTD_initStaticCCtx(g_static, g_staticSize); }
     else { c = ZSTD_createCCtx();
         if (prior == 1) { ZSTD_CCtx_setParameter(c, ZSTD_c_compressionLevel, 3); ZSTD_compress2(c, g_hdst, ZSTD_compressBound(BIG), g_hsrc, 600000); }
         if (prior == 2) { ZSTD_CCtx_setParameter(c, ZSTD_c_compressionLevel, 19); ZSTD_CCtx_setParameter(c, ZSTD_c_windowLog, 17); ZSTD_compress2(c, g_hdst, 1u << 20, g_hsrc + 7, 45000); }
+        if (prior == 5) { /* the same job geometry on other data, without the dictionary: half of the dictionary's words, then zeroes */
+            memcpy(g_pool, dict, 1024); memset(g_pool + 1024, 0, n - 1024); ZSTD_CCtx_setParameter(c, ZSTD_c_compressionLevel, strat);
+            if (!useCDict) ZSTD_CCtx_setParameter(c, ZSTD_c_windowLog, 15);
+            else { ZSTD_compressionParameters cp = ZSTD_getCParamsFromCDict(cd);      /* the table geometry the digested dictionary was built with: the workspace layout of the next frame */
+                ZSTD_CCtx_setParameter(c, ZSTD_c_windowLog, 15); ZSTD_CCtx_setParameter(c, ZSTD_c_chainLog, (int)cp.chainLog); ZSTD_CCtx_setParameter(c, ZSTD_c_hashLog, (int)cp.hashLog); ZSTD_CCtx_setParameter(c, ZSTD_c_searchLog, (int)cp.searchLog);
+                ZSTD_CCtx_setParameter(c, ZSTD_c_minMatch, (int)cp.minMatch); ZSTD_CCtx_setParameter(c, ZSTD_c_targetLength, (int)cp.targetLength); ZSTD_CCtx_setParameter(c, ZSTD_c_strategy, (int)cp.strategy); }
+            ZSTD_compress2(c, g_hdst, 1u << 20, g_pool, n); }
         ZSTD_CCtx_reset(c, ZSTD_reset_session_and_parameters); }
-    ZSTD_CCtx_setParameter(c, ZSTD_c_compressionLevel, strat); ZSTD_CCtx_setParameter(c, ZSTD_c_windowLog, 15);
+    ZSTD_CCtx_setParameter(c, ZSTD_c_compressionLevel, strat); if (!useCDict) ZSTD_CCtx_setParameter(c, ZSTD_c_windowLog, 15); else ZSTD_CCtx_refCDict(c, cd);
     size_t cn = ZSTD_compress2(c, g_dst, ZSTD_compressBound(n), src, n);
     if (ZSTD_isError(cn)) vx_fail("compression fails after prior use %d although it succeeds on a fresh context", prior);
-    else if (cn != rn || memcmp(g_dst, g_ref, rn)) vx_fail("optimal-parser output depends on %s", prior >= 3 ? "the initial content of the caller-provided memory" : "what the context compressed before");
-    if (prior < 3) ZSTD_freeCCtx(c);
+    else if (cn != rn || memcmp(g_dst, g_ref, rn)) vx_fail("optimal-parser output%s depends on %s", useCDict ? " (digested dictionary)" : "", prior == 3 || prior == 4 ? "the initial content of the caller-provided memory" : "what the context compressed before");
+    if (prior != 3 && prior != 4) ZSTD_freeCCtx(c);
+    ZSTD_freeCDict(cd);
     vx_obs_u64(vx_hash(g_ref, rn)); if (prior) vx_nontrivial(); vx_stat_add("histories_run", 1);
 }
 
